@@ -15,6 +15,9 @@ from .disc_common import _objective_pairing, dual_readback_transposed, expand1, 
 
 def run(ctx):  # noqa: C901
     m = ctx.model
+    from .disc_common import states_unscaled
+    states_unscaled(ctx, "/ppt_distinguishability.py")
+    states_unscaled(ctx, "/symmetric_extension_hierarchy.py")
     ctx.rule("R-EFFECT", "the caller's list of states is not written")
     ctx.rule("R-SDP", "PPT constraint on every measurement with the caller's subsystems/dimensions; dual pairs Y - p_i rho_i >= T(Q_i), Q_i >= 0; hierarchy families for every state")
     ctx.rule("R-THREAD", "level reaches the dimension list, the traced copies, the symmetric projector and the PPT loop; dispatch and option threading")
